@@ -139,7 +139,7 @@ class Lab:
             from redun.job_array import AWS_ARRAY_VAR, GCP_ARRAY_VAR, K8S_ARRAY_VAR
             from redun.scheduler import Job, Traceback
             from redun.task import CacheScope
-            from redun.utils import pickle_dump
+            from redun.utils import clear_import_paths, pickle_dump
             from redun.value import get_type_registry
         except ImportError as e:
             raise MachineryError(f"a seam of C32 is gone: {e}")
@@ -150,8 +150,9 @@ class Lab:
         self.S, self.RedunClient, self.get_oneshot_command = S, RedunClient, get_oneshot_command
         self.Job, self.Traceback, self.CacheScope, self.pickle_dump = Job, Traceback, CacheScope, pickle_dump
         self.File, self.registry = File, get_type_registry()
+        self.clear_import_paths = clear_import_paths
         self.index_vars = [AWS_ARRAY_VAR, K8S_ARRAY_VAR, GCP_ARRAY_VAR]
-        logging.getLogger("redun").setLevel(logging.CRITICAL)
+        logging.disable(logging.CRITICAL)      # oneshot logs every call; nothing here reads logs
         self.root = ctx.tmp("proto/x").parent
         moddir = ctx.tmp("mods/x").parent
         uniq = f"verif_c32_{os.getpid()}_{ctx.seed}"
@@ -250,6 +251,7 @@ class Group:
         """The container of job i (1-based): the oneshot entry point with the executor's argv."""
         lab = self.lab
         saved = {v: os.environ.pop(v, None) for v in lab.index_vars}
+        saved_path = list(sys.path)
         try:
             if self.case["array"]:
                 os.environ[self.index_var] = str(i - 1)
@@ -262,6 +264,9 @@ class Group:
             except Exception:  # noqa  (the container exits non-zero)
                 self.last_raised[i - 1] = True
         finally:
+            # a real container is a fresh process: undo what oneshot leaves behind in this one
+            sys.path[:] = saved_path
+            lab.clear_import_paths()
             for v, val in saved.items():
                 os.environ.pop(v, None)
                 if val is not None:
